@@ -46,15 +46,23 @@ def bounded(pack, tier, pid='C19'):
                 pack.known_finding(k)
             continue
         pack.violation(name, {'bounded': True, 'inputs': w, 'native_cmd': 'contracts/bounded_find_idx.py'})
+    mname = '%s/andes/core/model/modeldata.py:ModelData.find_idx/bounded:mixed-int-and-str-values-are-matched-as-python-objects' % pid
+    r = native_guard(pack, mname, BF.run_mixed)
+    if r is not None:
+        nm, badm = r
+        pack.bounded.append({'function': 'ModelData.find_idx, GroupBase.find_idx (mixed int / str registries)', 'cases': nm,
+                             'kind': 'bounded (enumeration, native)', 'counted_as_proved': False})
+        if badm:
+            pack.violation(mname, {'bounded': True, 'inputs': badm, 'native_cmd': 'contracts/bounded_find_idx.py: run_mixed'})
     from contracts import bounded_group_lookup as BL
     r = native_guard(pack, '%s/andes/models/group.py:GroupBase.idx2model/bounded:runs' % pid, BL.run)
     if r is not None:
         n3, bad = r
-        pack.bounded.append({'function': 'GroupBase.idx2model', 'kind': 'bounded (exhaustive enumeration, native)',
+        pack.bounded.append({'function': 'GroupBase.idx2model, GroupBase.get', 'kind': 'bounded (exhaustive enumeration, native)',
                              'bound': '2 models, 3 devices; queries of length 1-2 over {int idx, str idx, 2 unknown, None}; allow_none in {F,T}',
                              'cases': n3, 'mismatches': len(bad), 'counted_as_proved': False})
         for w in bad[:1]:
-            pack.violation('%s/andes/models/group.py:GroupBase.idx2model/bounded:known->its-model;None-only-with-allow_none;unknown->KeyError' % pid,
+            pack.violation('%s/andes/models/group.py:GroupBase.idx2model;get/bounded:known->its-own-model-and-value;None-only-with-allow_none;unknown->KeyError' % pid,
                            {'bounded': True, 'inputs': w, 'native_cmd': 'contracts/bounded_group_lookup.py'})
     r = native_guard(pack, '%s/andes/system.py:System.collect_ref/bounded:runs' % pid, BB.run)
     if r is None:
